@@ -1,9 +1,9 @@
-INIT MCInitQuick
+INIT ObsInit
 NEXT Next
 CONSTANTS Configs = {}
   CountBasedCheck = FALSE
   SkipEpochWithoutRow = FALSE
-  LoadEveryEngine = FALSE
+  LoadEveryEngine = TRUE
   LoadOnlyOwnTargets = FALSE
 INVARIANT ImportFaithful
 INVARIANT NoStaleState
